@@ -48,6 +48,10 @@ func NativeToObject(val any) Object {
 	case reflect.Map:
 		return nativeMapToObject(val)
 	case reflect.Pointer:
+		if reflect.ValueOf(val).IsNil() {
+			return &Nil{}
+		}
+
 		// NativeToObject is used recursively to handle pointers
 		return NativeToObject(reflect.ValueOf(val).Elem().Interface())
 	}
